@@ -37,9 +37,9 @@ STR_READERS = {'OP_GET_VALUE', 'OP_GET_MESSAGE', 'OP_CHECK_TIMESTAMP', 'OP_CHECK
 CONTROL = {'OP_RETURN', 'OP_CALL', 'OP_EVAL', 'OP_IF', 'OP_IF_ELSE', 'OP_TRY_EXCEPT', 'OP_LOOP', 'OP_MERKLEVAL', 'OP_TAPROOT'}
 
 
-def h_step(c, pkg, op, lens, ntape=6):
+def h_step(c, pkg, op, lens, ntape=6, mutable=False):
     cache0 = None
-    st, r, summ = vmstep.generic_step(c, pkg, op, lens, sym_limits=False, ntape=ntape, callstack_sym=True)
+    st, r, summ = vmstep.generic_step(c, pkg, op, lens, sym_limits=False, ntape=ntape, callstack_sym=True, mutable_fields=mutable)
     cache = st.cache
     name = op if isinstance(op, str) else 'NOP'
     c.reach('ok' if r[0] == 'ok' else 'raise')
@@ -61,6 +61,9 @@ def h_step(c, pkg, op, lens, ntape=6):
     c.check('sigfield2_unchanged', vals.get('sigfield2') is c.e.inputs['sigfield2'])
     c.check('timestamp_unchanged', vals.get('timestamp') is c.e.inputs['timestamp'])
     c.check('custom_unchanged', vals.get('custom') == 'text')
+    if mutable:
+        for k, v in vmstep.MUTABLE_FIELDS.items():
+            c.check('mutable_sigfield_not_altered_in_place', type(vals.get(k)) is bytearray and bytes(vals[k]) == v, key=k, op=name)
     # the embedder's mutable value: same content, and never handed to the script by reference (a stack item that
     # aliases it could be altered in place by a later instruction) - every stack item is an immutable bytes value
     blob = vals.get('blob')
@@ -84,6 +87,9 @@ def h_step(c, pkg, op, lens, ntape=6):
 def r_step(inputs, params, obligation):
     res = vmstep.concrete_generic_step(inputs, params)
     cache = res['cache']
+    if obligation == 'mutable_sigfield_not_altered_in_place':
+        bad = [k for k, v in vmstep.MUTABLE_FIELDS.items() if bytes(cache.get(k, b'')) != v]
+        return {'reproduced': bool(bad), 'altered': bad, 'now': {k: bytes(cache.get(k, b'')).hex() for k in vmstep.MUTABLE_FIELDS}}
     if obligation in ('stack_item_does_not_alias_embedder_value', 'stack_items_are_immutable_bytes',
                       'mutable_embedder_value_unchanged'):
         items = list(res['stack'].deque)
@@ -108,6 +114,10 @@ def _params(tier):
     for op in ('OP_WRITE_CACHE', 'OP_READ_CACHE', 'OP_READ_CACHE_SIZE', 'OP_GET_VALUE', 'OP_SET_FLAG', 'OP_UNSET_FLAG'):
         for lens in ([], [1], [1, 1], [4, 4]):
             out.append({'op': op, 'lens': lens, 'ntape': 12})
+    # the readers of the sigfields with the fields supplied as mutable buffers
+    for op in sorted(STR_READERS):
+        for lens in ([], [1], [32], [64, 32], [65, 32], [1, 1]):
+            out.append({'op': op, 'lens': lens, 'mutable': True})
     return out
 
 
